@@ -335,17 +335,75 @@ SUB_OBJECTS = ('fee', 'source', 'thumbnail', 'cover', 'tags', 'languages', 'loca
                'reference', 'image', 'video', 'audio')
 
 
-def check_group(group, res):
-    """group = {'cases': [case, ...]} with claim / support / purchase cases.  All objects are assembled and
-    parsed one after another and kept alive (with the sub-object wrappers obtained while each was the
-    newest); only after the last one exists every object is read back: bytes, typed accessors (through fresh
-    and through the early wrappers), plain parse.  Then every schema class is instantiated without arguments
-    and must be empty."""
+def snapshot(root, reads, subs=None):
+    """Current value of every accessor (or the exception type) - for change-over-time comparison."""
+    from vf import c16_model as M
+    out = []
+    for path, _, cmp in reads:
+        try:
+            first, _, rest = path.partition('.')
+            got = M.read(subs[first], rest) if subs and first in subs and rest else M.read(root, path)
+            got = got() if cmp == 'len' else list(got) if cmp == 'list' else got
+        except Exception as e:   # noqa
+            got = ('raises', type(e).__name__)
+        out.append(got)
+    return out
+
+
+def fresh_snapshot():
+    """Serialisation and accessor values of one new no-argument instance of every schema class."""
     from vf import c16_model as M
     from lbry.schema.claim import Claim, Stream, Channel, Repost, Collection
     from lbry.schema.support import Support
     from lbry.schema.purchase import Purchase
+    out = {}
+    for name, make in (('Claim', Claim), ('Support', Support), ('Purchase', Purchase), ('Stream', lambda: Stream().claim),
+                       ('Channel', lambda: Channel().claim), ('Collection', lambda: Collection().claim),
+                       ('Repost', lambda: Repost().claim)):
+        try:
+            o = make()
+            out[name + '().to_bytes()'] = o.to_bytes()
+            if name in ('Claim', 'Support'):
+                out[name + '() envelope'] = (o.signature, o.signing_channel_hash)
+        except Exception as e:   # noqa
+            out[name + '().to_bytes()'] = ('raises', type(e).__name__, str(e)[:60])
+    for typ, cls_ in (('stream', Stream), ('channel', Channel), ('repost', Repost), ('collection', Collection)):
+        reads = M.expected_reads(typ, {})
+        try:
+            vals = snapshot(cls_(), reads)
+        except Exception as e:   # noqa
+            vals = [('raises', type(e).__name__)] * len(reads)
+        for (path, _, _), v in zip(reads, vals):
+            out[f'{cls_.__name__}().{path}'] = v
+    try:
+        s, p, c = Support(), Purchase(), Claim()
+        out['Support() fields'] = (s.emoji, s.comment)
+        out['Purchase() fields'] = (p.claim_hash, p.claim_id)
+        out['Claim().claim_type'] = c.claim_type
+    except Exception as e:   # noqa
+        out['fresh fields'] = ('raises', type(e).__name__)
+    return out
+
+
+FRESH_EXPECTED = {'Claim().to_bytes()': b'\x00', 'Support().to_bytes()': b'\x00', 'Purchase().to_bytes()': b'P',
+                  'Stream().to_bytes()': b'\x00\x0a\x00', 'Channel().to_bytes()': b'\x00\x12\x00',
+                  'Collection().to_bytes()': b'\x00\x1a\x00', 'Repost().to_bytes()': b'\x00\x22\x00'}
+_FRESH_AT_START = []
+
+
+def check_group(group, res):
+    """group = {'cases': [case, ...]} with claim / support / purchase cases ("objects do not share state").
+    Every member is assembled AND parsed, one after another, and all stay alive together with the sub-object
+    wrappers obtained while each was the newest; bytes and all accessor values are recorded at creation.  Only
+    after the last one exists every object is read again: any change over time is a violation
+    (live-object-changed); members whose case is clean on its own are also judged against the model
+    (live-readback: pollution that was already there at creation).  Finally a new no-argument instance of every
+    schema class must look exactly like one created before anything was populated in this process."""
+    from vf.core import Result
+    from lbry.schema.purchase import Purchase
     from lbry.schema.types.v2.purchase_pb2 import Purchase as PurchaseMessage
+    if not _FRESH_AT_START:
+        _FRESH_AT_START.append(fresh_snapshot())
     res.count('evaluations')
     res.count('live_object_groups')
     rep = {'mode': 'group', 'group': group}
@@ -355,6 +413,12 @@ def check_group(group, res):
     def bad(kind, what, **extra):
         res.violation(dict(sig0, kind=kind, **extra), f'{what}  [group of {len(kinds)}: {kinds}]', rep)
 
+    # is each member's case clean when judged on its own?  (an ordinary defect is reported there, not here)
+    solo_ok = []
+    for case in group['cases']:
+        scratch = Result()
+        {'claim': check_claim, 'support': check_support, 'purchase': check_purchase}[case['mode']](case, scratch)
+        solo_ok.append(not scratch.violations)
     live = []
     current = [None]
     try:
@@ -365,93 +429,85 @@ def check_group(group, res):
                     built.claim_id = case['claim_id']
                 elif case['how'] == 'claim_hash':
                     built.claim_hash = bytes.fromhex(case['claim_id'])[::-1]
-                data = built.to_bytes()
-                parsed = Purchase.from_bytes(data)
-                live.append((case, built, parsed, data, {}, {}))
+                parsed = Purchase.from_bytes(built.to_bytes())
+                entry = []
+                for o in (built, parsed):
+                    entry.append((o, {}, o.to_bytes(), [o.claim_id, o.claim_hash]))
+                live.append((case, None, entry))
                 continue
             cls, _ = schema_classes(case['mode'])
             built = cls()
             apply_stage(built, case, case['ops'], current)
             if case.get('sign'):
                 set_envelope(built, case['sign'])
-            data = built.to_bytes()
-            parsed = cls.from_bytes(data)
-            subs = []
+            parsed = cls.from_bytes(built.to_bytes())
+            content, reads = expected_content(case, case['ops'])
+            entry = []
             for o in (built, parsed):
                 root = typed_root(o, case)
-                subs.append({n: getattr(root, n) for n in SUB_OBJECTS
-                             if case['mode'] == 'claim' and case['type'] and hasattr(type(root), n)})
-            live.append((case, built, parsed, data, subs[0], subs[1]))
-    except Exception as e:   # noqa
-        return bad('set-raises', f'assembling the group raised {type(e).__name__}: {e}', exc=type(e).__name__)
-    # ... all objects exist now; read every one of them back
-    for idx, (case, built, parsed, data, subs_built, subs_parsed) in enumerate(live):
+                subs = {n: getattr(root, n) for n in SUB_OBJECTS
+                        if case['mode'] == 'claim' and case['type'] and hasattr(type(root), n)}
+                entry.append((o, subs, o.to_bytes(), snapshot(root, reads) + [o.signature, o.signing_channel_hash]))
+            live.append((case, reads, entry))
+    except Exception as e:   # noqa - an ordinary set-raises defect is reported by the member's own case
+        if all(solo_ok):
+            bad('set-raises', f'assembling the group raised {type(e).__name__}: {e}', exc=type(e).__name__)
+        return
+    # ... all objects exist now; read every one of them again
+    for idx, (case, reads, entry) in enumerate(live):
         kind_name = kinds[idx]
-        for origin, o, subs in (('built', built, subs_built), ('parsed', parsed, subs_parsed)):
+        for origin, (o, subs, bytes0, snap0) in zip(('built', 'parsed'), entry):
             res.count('live_objects_read')
             try:
                 now = o.to_bytes()
             except Exception as e:   # noqa
-                bad('live-object-changed', f'object {idx} ({kind_name}, {origin}) to_bytes() raised {type(e).__name__}',
-                    member=kind_name, origin=origin)
-                continue
-            if now != data:
-                bad('live-object-changed', f'object {idx} ({kind_name}, {origin}) serialises differently after later objects '
-                    f'were created: {now.hex()[:80]} != {data.hex()[:80]}', member=kind_name, origin=origin)
+                now = ('raises', type(e).__name__)
+            if now != bytes0:
+                bad('live-object-changed', f'object {idx} ({kind_name}, {origin}) serialised to {bytes0.hex()[:60]} when it was '
+                    f'created and to {now.hex()[:60] if isinstance(now, bytes) else now} after later objects were created',
+                    member=kind_name, origin=origin, part='bytes')
             if case['mode'] == 'purchase':
-                exp_hash = bytes.fromhex(case['claim_id'])[::-1]
-                if o.claim_id != case['claim_id'] or o.claim_hash != exp_hash:
-                    bad('live-readback', f'object {idx} (purchase, {origin}) claim_id reads {o.claim_id!r}, set {case["claim_id"]!r}',
-                        member='purchase', origin=origin, accessor='claim_id')
-                if PurchaseMessage.FromString(now[1:]).claim_hash != exp_hash:
-                    bad('live-plain-parse', f'object {idx} (purchase, {origin}) bytes carry another claim reference',
-                        member='purchase', origin=origin)
+                if [o.claim_id, o.claim_hash] != snap0:
+                    bad('live-object-changed', f'object {idx} (purchase, {origin}) claim_id read {snap0[0]!r} when created, '
+                        f'reads {o.claim_id!r} now', member='purchase', origin=origin, part='claim_id')
+                if solo_ok[idx]:
+                    exp_hash = bytes.fromhex(case['claim_id'])[::-1]
+                    if o.claim_id != case['claim_id'] or o.claim_hash != exp_hash:
+                        bad('live-readback', f'object {idx} (purchase, {origin}) claim_id reads {o.claim_id!r}, set {case["claim_id"]!r}',
+                            member='purchase', origin=origin, accessor='claim_id')
+                    if isinstance(now, bytes) and PurchaseMessage.FromString(now[1:]).claim_hash != exp_hash:
+                        bad('live-plain-parse', f'object {idx} (purchase, {origin}) bytes carry another claim reference',
+                            member='purchase', origin=origin)
                 continue
-            content, reads = expected_content(case, case['ops'])
+            root = typed_root(o, case)
+            for label, use_subs in (('fresh wrappers', None), ('early wrappers', subs)):
+                if use_subs is None or use_subs:
+                    snap1 = snapshot(root, reads, use_subs) + [o.signature, o.signing_channel_hash]
+                    changed = [i for i, (a, b) in enumerate(zip(snap0, snap1)) if a != b or type(a) is not type(b)]
+                    if changed:
+                        i = changed[0]
+                        path = reads[i][0] if i < len(reads) else ('signature', 'signing_channel_hash')[i - len(reads)]
+                        bad('live-object-changed', f'object {idx} ({kind_name}, {origin}, {label}): {path} read {snap0[i]!r:.80} '
+                            f'when created, reads {snap1[i]!r:.80} now ({len(changed)} accessors changed)',
+                            member=kind_name, origin=origin, part=generic(path))
+            if solo_ok[idx]:
+                def bad_member(kind, what, **extra):
+                    bad(kind, f'object {idx} ({kind_name}, {origin}): {what}', member=kind_name, origin=origin, **extra)
 
-            def bad_member(kind, what, **extra):
-                bad(kind, f'object {idx} ({kind_name}, {origin}): {what}', member=kind_name, origin=origin, **extra)
-
-            read_accessors(typed_root(o, case), reads, res, bad_member, kind='live-readback')
-            if subs:
-                read_accessors(typed_root(o, case), [r for r in reads if r[0].partition('.')[0] in subs], res, bad_member,
-                               subs=subs, kind='live-readback-early-wrapper')
-            exp_sig = bytes.fromhex(case['sign']['sig']) if case.get('sign') else None
-            if o.signature != exp_sig or o.signing_channel_id != (case['sign']['channel_id'] if case.get('sign') else None):
-                bad_member('live-envelope', f'envelope reads {o.signature!r:.40} / {o.signing_channel_id!r}')
-    # a fresh object of every class is empty
-    fresh = [('Claim', Claim, b'\x00'), ('Support', Support, b'\x00'), ('Purchase', Purchase, b'P'),
-             ('Stream', lambda: Stream().claim, b'\x00\x0a\x00'), ('Channel', lambda: Channel().claim, b'\x00\x12\x00'),
-             ('Collection', lambda: Collection().claim, b'\x00\x1a\x00'), ('Repost', lambda: Repost().claim, b'\x00\x22\x00')]
-    for name, make, exp in fresh:
-        res.count('fresh_objects_read')
-        try:
-            got = make().to_bytes()
-        except Exception as e:   # noqa
-            got = f'<{type(e).__name__}: {e}>'
-        if got != exp:
-            bad('fresh-object-not-empty', f'{name}() created after other objects serialises to {got!r:.80}, expected {exp!r}',
-                member=name)
-    for typ, cls_ in (('stream', Stream), ('channel', Channel), ('repost', Repost), ('collection', Collection)):
-        def bad_fresh(kind, what, **extra):
-            bad('fresh-object-not-empty', f'{cls_.__name__}(): {what}', member=cls_.__name__, **extra)
-        try:
-            fresh_typed = cls_()
-        except Exception as e:   # noqa
-            bad('fresh-object-not-empty', f'{cls_.__name__}() raised {type(e).__name__}: {e}', member=cls_.__name__)
-            continue
-        read_accessors(fresh_typed, M.expected_reads(typ, {}), res, bad_fresh, kind='fresh-object-not-empty')
-    try:
-        s, p = Support(), Purchase()
-        if s.emoji != '' or s.comment != '' or s.signature is not None or s.signing_channel_hash is not None:
-            bad('fresh-object-not-empty', f'Support() reads emoji={s.emoji!r} comment={s.comment!r}', member='Support')
-        if p.claim_hash != b'' or p.claim_id != '':
-            bad('fresh-object-not-empty', f'Purchase() reads claim_id={p.claim_id!r}', member='Purchase')
-        c = Claim()
-        if c.claim_type is not None or c.signature is not None or c.signing_channel_hash is not None:
-            bad('fresh-object-not-empty', f'Claim() has type {c.claim_type!r} / a signature', member='Claim')
-    except Exception as e:   # noqa
-        bad('fresh-object-not-empty', f'reading fresh objects raised {type(e).__name__}: {e}', member='fresh')
+                read_accessors(root, reads, res, bad_member, kind='live-readback')
+                exp_sig = bytes.fromhex(case['sign']['sig']) if case.get('sign') else None
+                if o.signature != exp_sig or o.signing_channel_id != (case['sign']['channel_id'] if case.get('sign') else None):
+                    bad_member('live-envelope', f'envelope reads {o.signature!r:.40} / {o.signing_channel_id!r}')
+    # a new no-argument instance of every class: as empty as one made before anything was populated
+    fresh_now = fresh_snapshot()
+    res.count('fresh_objects_read', len(fresh_now))
+    for key, v in fresh_now.items():
+        v0 = _FRESH_AT_START[0].get(key)
+        if v != v0 or type(v) is not type(v0):
+            bad('fresh-object-not-empty', f'{key} was {v0!r:.80} before any object was populated in this process and is '
+                f'{v!r:.80} now', member=key.split('(')[0])
+        elif key in FRESH_EXPECTED and v != FRESH_EXPECTED[key] and all(solo_ok):
+            bad('fresh-object-wrong', f'{key} is {v!r:.80}, expected {FRESH_EXPECTED[key]!r}', member=key.split('(')[0])
     res.distinct_add('nontrivial', ('group', json.dumps(group, sort_keys=True)))
     res.witness('live_object_group_with_%d_or_more_members' % min(3, len(kinds)))
 
@@ -1365,7 +1421,8 @@ def run(ctx):
     # pre-flight: the live-object groups.  When schema objects share state every later case would be judged on
     # polluted (and ever-growing) objects, so the rest of the enumeration is skipped and reported as a cap.
     ctx.pmap(work, [('groups',)])
-    shared_state = any(v['signature'].get('object') == 'group' for v in ctx.res.violations.values())
+    shared_state = any(v['signature'].get('kind') in ('live-object-changed', 'fresh-object-not-empty')
+                       for v in ctx.res.violations.values())
     if shared_state:
         ctx.res.count('capped')
         ctx.res.tally('enumeration_skipped_because_objects_share_state')
